@@ -649,6 +649,7 @@ class Enc:
         self.b = bytearray()
         self.marks = []     # (pos, width, kind)
         self.sfx = {}       # tuple(labels) -> offset of an earlier occurrence
+        self.roots = []     # offsets of earlier name terminators (occurrences of the root name)
         self.rng = rng
         self.compress = compress  # probability (out of 4) of using an available pointer
 
@@ -667,6 +668,14 @@ class Enc:
             self.marks.append((len(self.b), 1, "label"))
             self.b += bytes([len(labels[i])]) + labels[i]
             i += 1
+        # the root name too has earlier occurrences - every terminator written so far: a (non-canonical, legal) encoder may
+        # point at one instead of writing the zero octet, for the tail of a name as for a root owner such as the OPT record's
+        if allow_ptr and self.compress and self.roots and self.roots[0] <= 0x3FFF and self.rng.below(16) < self.compress:
+            off = self.rng.choice([r for r in self.roots if r <= 0x3FFF])
+            self.marks.append((len(self.b), 2, "ptr"))
+            self.b += bytes([0xC0 | (off >> 8), off & 0xFF])
+            return
+        self.roots.append(len(self.b))
         self.b.append(0)
 
     def field(self, kind, v):
